@@ -249,6 +249,8 @@ mut("R-C03-index-mut-kingside-selects-queenside", "C03", "revocation-table", ("s
 mut("R-C03-rook-corner-h1-is-queenside", "C03", "revocation-table", (B, "            (Color::White, Square { rank: 0, file: 7 }) => Some(CastlingKind::WhiteKingside),", "            (Color::White, Square { rank: 0, file: 7 }) => Some(CastlingKind::WhiteQueenside),"), base=R + "R15-refactor2.diff")
 mut("R-C08-merged-keyword-index-fen-moves-at-6", "C08", "fen-moves-from-8", (UC, "                (PositionKind::Fen { fen }, FEN_FIELDS + 1)", "                (PositionKind::Fen { fen }, FEN_FIELDS)"), base=R + "R15-refactor6.diff")
 mut("R-C01-direction-table-southeast-is-southwest", "C01", "unit-steps", ("src/board/square.rs", "    Delta::new(-1, 1),  // SouthEast", "    Delta::new(-1, -1),  // SouthEast"), base=R + "R15-refactor5.diff")
+mut("R-C03-by-value-rights-not-written-back", "C03", "revocation", (B, "        new_move.castling_rights = rights;\n", ""), base=R + "R16-refactor3.diff")
+mut("R-C02-by-value-checks-return-touches-clock", "C02", "pushes-the-played-move", (B, "        new_move.castling_rights = rights;\n", "        new_move.castling_rights = rights;\n        new_move.halfmove_clock = 0;\n"), base=R + "R16-refactor3.diff")
 # ---- on the fifth wave: castling moves produced by a loop over the two wings (R12-3)
 K12 = "src/board/piece/king.rs"
 mut("R-C01-castle-loop-queenside-file-b", "C01", "castle-move", (K12, "const QUEENSIDE_DEST_FILE: u8 = 2; // c-file", "const QUEENSIDE_DEST_FILE: u8 = 1; // c-file"), base=R + "R12-refactor3.diff")
